@@ -18,4 +18,4 @@ for c in (m.get('detected_by') or []):
     if c not in ids: ids.append(c)
 print(n,' '.join(ids))
 PY
-done | xargs -P "$PAR" -L 1 bash -c '/verif/tools/recheck_seeded.sh "$@" 2>&1 | grep -E "RESULT|updated|does not|FAILS" | sed "s/^/[$0] /" | cut -c1-260' 
+done | xargs -P "$PAR" -L 1 bash -c '/verif/tools/recheck_seeded.sh "$0" "$@" 2>&1 | grep -E "RESULT|updated|does not|FAILS" | sed "s/^/[$0] /" | cut -c1-260' 
